@@ -60,14 +60,15 @@ def run(ctx):
     # correspondence: the model replays each observed history inside Coq
     corr_ok, mism = True, []
     if ok:
-        terms = [sc.case_term(c) for c in cases]
+        ecases = [c for c in cases if not c.get("oracle_only")]
+        terms = [sc.case_term(c) for c in ecases]
         okc, idx, clog = ctx.eval_cases(sc.IMPORTS, sc.CTYPE, terms, sc.AGREE, shard=120)
         if not okc:
             corr_ok = False
             detail["cases"] = clog[-1500:]
         elif idx:
             corr_ok = False
-            mism = [cases[i] for i in idx[:5]]
+            mism = [ecases[i] for i in idx[:5]]
             detail["model_vs_impl_mismatches"] = [{"scenario": m["scenario"], "label": m["label"], "events": m["events"],
                                                    "outcomes": [(o["t"], o["code"], o["id"], o["uid"]) for o in m["outcomes"]],
                                                    "handlers": m["handlers"]} for m in mism]
